@@ -115,7 +115,7 @@ func (b *ksFailBody) Close() error { return nil }
 
 // ksGuard runs f (a request) and reports whether it returned.  A handler that never returns (e.g. one
 // blocked for ever in the buffer pool's accounting) must become an observation, not a test timeout: the
-// first request of a test process that does not return is given 30 s (far beyond anything a request
+// first request of a test process that does not return is given 60 s (far beyond anything a request
 // takes here, also under heavy load), later ones 1 s (by then the run has failed anyway; waiting longer
 // would only make the failing run slower).  The goroutine of a request that did not return is abandoned.
 var ksHangs int32
@@ -126,7 +126,7 @@ func ksGuard(f func()) bool {
 		defer close(done)
 		f()
 	}()
-	limit := 30 * time.Second
+	limit := 60 * time.Second
 	if atomic.LoadInt32(&ksHangs) > 0 {
 		limit = time.Second
 	}
